@@ -62,7 +62,7 @@ SMALL_SPEC = {
         {"name": "k4", "fmt": "proportion", "ts": None, "fn": None, "db": True, "min": None, "max": None, "tgt": False, "timed": False, "deriv": False},
         {"name": "k5", "fmt": "proportion", "ts": None, "fn": None, "db": True, "min": None, "max": None, "tgt": False, "timed": False, "deriv": False},
         {"name": "k6", "fmt": "duration", "ts": None, "fn": None, "db": True, "min": None, "max": None, "tgt": False, "timed": True, "deriv": False},
-        {"name": "k7", "fmt": "rate", "ts": None, "fn": None, "db": True, "min": None, "max": None, "tgt": False, "timed": False, "deriv": False},
+        {"name": "k7", "fmt": "rate", "ts": 1 / 52, "fn": None, "db": True, "min": None, "max": None, "tgt": False, "timed": False, "deriv": False},
         {"name": "k8", "fmt": None, "ts": None, "fn": "SRC_POP_AVG(k0, w0)", "db": False, "min": None, "max": None, "tgt": False, "timed": False, "deriv": False},
     ],
     "links": [["c0", "c1", ["k0"]], ["src", "c0", ["k1"]], ["c1", "snk", ["k2"]], ["c0", "j0", ["k3"]], ["j0", "c1", ["k4"]], ["j0", "c0", ["k5"]], ["c1", "t0a", ["k7"]], ["t0a", "c0", ["k6"]]],
